@@ -75,7 +75,20 @@ func (p *NumInfo) decimal(v *apd.Decimal) error {
 		v.Coeff.SetString(string(b), int(p.base))
 		return nil
 	}
-	_ = v.UnmarshalText(p.buf)
+	buf := p.buf
+	if len(buf) == 0 {
+		// scanNumber does not copy a lone "0" into buf;
+		// ParseNum only adds it once the whole literal is scanned.
+		buf = []byte("0")
+	}
+	// An error without any condition means that apd could not read the number,
+	// for instance because its exponent is out of range: v is then NaN or lacks
+	// the exponent. An error with a condition only says that v, which holds the
+	// number as written, is beyond the range in which apd can do arithmetic;
+	// such numbers have always been accepted.
+	if _, cond, err := v.SetString(string(buf)); err != nil && cond == 0 {
+		return p.errorf("invalid number %q: %v", p.src, err)
+	}
 	if p.mul != 0 {
 		_, _ = baseContext.Mul(v, v, mulToRat[p.mul])
 		cond, _ := baseContext.RoundToIntegralExact(v, v)
